@@ -1,5 +1,6 @@
 (* C08 — the file-system wallet only signs with the key that owns the requested address.
-   Statements only; proofs live in Wallet/Proofs.v, Proofs2.v, Proofs3.v and Proofs4.v.
+   Statements only; proofs live in Wallet/Proofs.v, Proofs2.v, Proofs3.v, Proofs4.v, Proofs5.v, WithC01.v and WithC04.v
+   (the last three: answers to the referee's review design/reviews/C08.md, section 5 at the end).
 
    Everything is quantified over: the key / transaction / signature types, the external behaviour [E]
    (regexp, templates, metadata parsers, JSON strings, TrimSpace, path.Join, the keystore reader, the
@@ -11,6 +12,8 @@ From Coq Require Import String.
 From Coq Require Import List NArith Lia Bool Arith.
 From Coq Require Import Init.Byte.
 From FFS Require Import Base.Res Base.Bytes Wallet.Model Wallet.Spec Wallet.Proofs Wallet.Proofs2 Wallet.Proofs3 Wallet.Proofs4.
+From Coq Require Import ZArith.
+From FFS Require Import Base.Keccak Crypto.Ecdsa Wallet.Proofs5 Wallet.WithC01 Wallet.WithC04.
 Import ListNotations.
 
 Arguments after {key tx stx doc tsig} E c s h.
@@ -401,4 +404,437 @@ Proof.
   - apply (C08_unlisted_address_refused_tx _ _ _ _ _ xE xc xfs [ORefresh; OGetWalletFile _ _ xA] _ xA' tt).
     + vm_compute; reflexivity.
     + vm_compute. intros [H|[H|[]]]; discriminate.
+Qed.
+
+(* ================================================================================================
+   5. (referee round — design/reviews/C08.md, answered in design/C08.md "Referee report and answers")
+   ================================================================================================ *)
+
+(* ISSUE 3a.  The bridge between "the matching key file is present" and the model-internal map of the
+   liveness theorems: on a wallet directory that does not change, after ANY history of requests, GetAccounts
+   calls, rescans and cache evictions, the file listed for A is the last regular file of the listing whose
+   name names A (nothing before the first scan), and the wallet still reads the same file system. *)
+Theorem C08_listed_file_any_history :
+  forall (key tx stx doc tsig : Type) (E : ext key tx stx doc tsig) (c : config)
+         (fs : fsys) (files : list (bytes * bool)) (h : list (op tx doc)) (a : bytes),
+    regex_law E -> constructed E c ->
+    fs_readdir fs (c_path c) = Ok files -> names_ok files -> static h = true ->
+    assoc_get a (st_map (after E c (init_state fs) h)) =
+      (if refreshed h then backing (rule_of E c) files a None else None) /\
+    st_fs (after E c (init_state fs) h) = fs.
+Proof. exact listed_backing_static. Qed.
+Print Assumptions C08_listed_file_any_history.
+
+(* ISSUE 3b.  Liveness stated on the DIRECTORY and the FILES (no premise about the wallet's state), with the
+   results of the two signing entry points spelt out: on an unchanging, scanned directory whose last regular
+   file naming A holds A's key, with a usable password, GetWalletFile, Sign and SignTypedDataV4 naming A all
+   succeed with one key of A — after any history of requests, rescans and evictions. *)
+Theorem C08_liveness_static :
+  forall (key tx stx doc tsig : Type) (E : ext key tx stx doc tsig) (c : config)
+         (fs : fsys) (files : list (bytes * bool)) (h : list (op tx doc)) (a fn content pw : bytes) (k : key),
+    regex_law E -> constructed E c ->
+    fs_readdir fs (c_path c) = Ok files -> names_ok files -> static h = true -> refreshed h = true ->
+    classify_format (resolved_format c) = None ->                       (* no metadata *)
+    backing (rule_of E c) files a None = Some fn ->                     (* the last regular file naming A *)
+    fs_readfile fs (path_join E (c_path c) fn) = Ok content ->
+    spec_password (fs_readfile fs) (c_pw_trim c) (trim_space E)
+                  (plain_password_file E c a) (c_default_pw_file c) = Some pw ->
+    read_wallet E content pw = Ok k -> addr_of E k = a ->
+    let s := after E c (init_state fs) h in
+    exists (s' : state key) (k' : key),
+      GetWalletFile E c s a = (s', Ok k') /\ addr_of E k' = a /\
+      (forall raw (t : tx), parse_from E raw = Some a -> Sign E c s raw t = (s', sign_tx E k' t)) /\
+      (forall d : doc, SignTypedDataV4 E c s a d = (s', sign_td E k' d)).
+Proof. exact liveness_static_plain. Qed.
+Print Assumptions C08_liveness_static.
+
+Theorem C08_liveness_static_metadata :
+  forall (key tx stx doc tsig : Type) (E : ext key tx stx doc tsig) (c : config)
+         (fs : fsys) (files : list (bytes * bool)) (h : list (op tx doc)) (a fn : bytes) (m : mfmt)
+         (content kf kcontent pw : bytes) (k : key),
+    regex_law E -> constructed E c ->
+    fs_readdir fs (c_path c) = Ok files -> names_ok files -> static h = true -> refreshed h = true ->
+    let primary := path_join E (c_path c) fn in
+    classify_format (resolved_format c) = Some m ->                     (* toml / json / yaml metadata *)
+    backing (rule_of E c) files a None = Some fn ->
+    fs_readfile fs primary = Ok content ->
+    meta_parse E m content = true ->
+    goTemplateToString E m content (c_key_prop c) = kf -> kf <> [] ->
+    (if bytes_eqb kf primary then kcontent = content else fs_readfile fs kf = Ok kcontent) ->
+    spec_password (fs_readfile fs) (c_pw_trim c) (trim_space E)
+                  (goTemplateToString E m content (c_pw_prop c)) (c_default_pw_file c) = Some pw ->
+    read_wallet E kcontent pw = Ok k -> addr_of E k = a ->
+    let s := after E c (init_state fs) h in
+    exists (s' : state key) (k' : key),
+      GetWalletFile E c s a = (s', Ok k') /\ addr_of E k' = a /\
+      (forall raw (t : tx), parse_from E raw = Some a -> Sign E c s raw t = (s', sign_tx E k' t)) /\
+      (forall d : doc, SignTypedDataV4 E c s a d = (s', sign_td E k' d)).
+Proof. exact liveness_static_metadata. Qed.
+Print Assumptions C08_liveness_static_metadata.
+
+(* ISSUE 1.  Every key the wallet hands out, in any reachable state, came out of the keystore reader: any
+   property [good_key] of everything the reader returns holds of it (and it is a key of the address named). *)
+Theorem C08_keys_come_from_reader :
+  forall (key tx stx doc tsig : Type) (E : ext key tx stx doc tsig) (c : config) (good_key : key -> Prop),
+    (forall content pw k, read_wallet E content pw = Ok k -> good_key k) ->
+    forall (fs : fsys) (h : list (op tx doc)) (a : bytes) (s' : state key) (k : key),
+      GetWalletFile E c (after E c (init_state fs) h) a = (s', Ok k) -> good_key k /\ addr_of E k = a.
+Proof. exact GetWalletFile_good_reachable. Qed.
+Print Assumptions C08_keys_come_from_reader.
+
+(* ... so the signers' recover law is needed only UNDER A GUARD on (key, request) — which is how C01/C05
+   prove it —, the guard on the key being discharged by a law of the keystore reader.  The conclusion names
+   the key that signed, says it is a good key of the requested address, and gives recovery under the guard
+   on the request.  (C08_signatures_recover_to_requested above assumes the law for ALL keys and requests; for
+   the real signers that premise is false, e.g. for the scalar 0 or a chain id above 2^53.) *)
+Theorem C08_signatures_recover_guarded :
+  forall (key tx stx doc tsig : Type) (E : ext key tx stx doc tsig) (c : config) (good_key : key -> Prop),
+    (forall content pw k, read_wallet E content pw = Ok k -> good_key k) ->
+    forall (good_tx : key -> tx -> Prop) (good_td : key -> doc -> Prop)
+           (recover_tx : tx -> stx -> option bytes) (recover_td : doc -> tsig -> option bytes),
+    (forall k t out, good_key k -> good_tx k t -> sign_tx E k t = Ok out -> recover_tx t out = Some (addr_of E k)) ->
+    (forall k d out, good_key k -> good_td k d -> sign_td E k d = Ok out -> recover_td d out = Some (addr_of E k)) ->
+    forall (fs : fsys) (h : list (op tx doc)),
+      let s := after E c (init_state fs) h in
+      (forall raw t s' out, Sign E c s raw t = (s', Ok out) ->
+         exists str a k, json_string E raw = Some str /\ addr_of_text str = Some a /\
+                         good_key k /\ addr_of E k = a /\ sign_tx E k t = Ok out /\
+                         (good_tx k t -> recover_tx t out = Some a)) /\
+      (forall a d s' out, SignTypedDataV4 E c s a d = (s', Ok out) ->
+         exists k, good_key k /\ addr_of E k = a /\ sign_td E k d = Ok out /\
+                   (good_td k d -> recover_td d out = Some a)).
+Proof. exact signatures_recover_guarded. Qed.
+Print Assumptions C08_signatures_recover_guarded.
+
+(* ... and with the wallet's transaction signer INSTANTIATED by property C01's model of Transaction.Sign over
+   property C05's KeyPair signer (Wallet/WithC01.v: keys are private scalars, a transaction of the wallet
+   model is a pair (Go struct, chain id)) the recover law is not a hypothesis any more: it is C01's
+   end-to-end theorem.  Left as premises: the group laws and the 32-byte hash (C01's own parameters), the
+   reader's law "the scalar is in [1, n-1]" (btcec reduces modulo n; the wallet refuses 0 since fix 9d2e72f),
+   the property's range of the request (chain id in [0, 2^53], in_range), and V in {27,28} for the last
+   conjunct (the 2^-128 event x(kG) >= n, as in C01). *)
+Theorem C08_sign_recovers_c01 :
+  forall (o : group_ops) (H : bytes -> bytes) (nonce : Z -> bytes -> nat -> Z) (fuel : nat),
+    laws o -> (n o < SM.two256)%Z -> (forall x, length (H x) = 32%nat) ->
+  forall (doc tsig : Type) (E : ext N (T.tx * Z) bytes doc tsig) (c : config)
+         (fs : fsys) (h : list (op (T.tx * Z) doc)) (raw : bytes) (t : T.tx) (chain : Z)
+         (s' : state N) (out : bytes),
+    c01_world o H nonce fuel doc tsig E -> reader_range o doc tsig E ->
+    Sign E c (after E c (init_state fs) h) raw (t, chain) = (s', Ok out) ->
+    (0 <= chain <= 2 ^ 53)%Z -> TP4.in_range t ->
+    let fm := TN.format_of T.Auto t in
+    let pre := TS.spec_preimage fm (TN.norm t) (Z.to_N chain) in
+    exists str a d v r s,
+      json_string E raw = Some str /\ addr_of_text str = Some a /\
+      (1 <= Z.of_N d < n o)%Z /\ TP3.secp_address o H d = a /\
+      SM.SignDirect o nonce fuel (Z.of_N d) (H pre) = Ok {| SM.sV := v; SM.sR := r; SM.sS := s |} /\
+      (1 <= r < n o)%Z /\ (1 <= s < n o)%Z /\ (2 * s <= n o)%Z /\
+      ecdsa_verify o (pub o (Z.of_N d)) (SM.hash_to_z (H pre)) r s = true /\
+      (TP.v_legacy v ->
+         out = TS.spec_signed fm (TN.norm t) (Z.to_N chain) (TP.y_of v) (Z.to_N r) (Z.to_N s) /\
+         TR.RecoverRawTransaction H (TP3.secp_RecoverDirect o H) out chain
+         = Ok (a, TP2.recovered_tx fm (TN.norm t), pre)).
+Proof.
+  intros o H nonce fuel L nf HL doc tsig E c fs h raw t chain s' out.
+  exact (sign_recovers_c01 o H nonce fuel L nf HL doc tsig E c fs h raw t chain s' out).
+Qed.
+Print Assumptions C08_sign_recovers_c01.
+
+(* the same with the executable Keccak-256 of Base/Keccak.v (its 32-byte law is proved there) *)
+Theorem C08_sign_recovers_c01_keccak :
+  forall (o : group_ops) (nonce : Z -> bytes -> nat -> Z) (fuel : nat) (doc tsig : Type)
+         (E : ext N (T.tx * Z) bytes doc tsig) (c : config)
+         (fs : fsys) (h : list (op (T.tx * Z) doc)) (raw : bytes) (t : T.tx) (chain : Z)
+         (s' : state N) (out : bytes),
+    laws o -> (n o < SM.two256)%Z ->
+    c01_world o keccak256 nonce fuel doc tsig E -> reader_range o doc tsig E ->
+    Sign E c (after E c (init_state fs) h) raw (t, chain) = (s', Ok out) ->
+    (0 <= chain <= 2 ^ 53)%Z -> TP4.in_range t ->
+    let fm := TN.format_of T.Auto t in
+    let pre := TS.spec_preimage fm (TN.norm t) (Z.to_N chain) in
+    exists str a d v r s,
+      json_string E raw = Some str /\ addr_of_text str = Some a /\
+      (1 <= Z.of_N d < n o)%Z /\ TP3.secp_address o keccak256 d = a /\
+      SM.SignDirect o nonce fuel (Z.of_N d) (keccak256 pre) = Ok {| SM.sV := v; SM.sR := r; SM.sS := s |} /\
+      (1 <= r < n o)%Z /\ (1 <= s < n o)%Z /\ (2 * s <= n o)%Z /\
+      ecdsa_verify o (pub o (Z.of_N d)) (SM.hash_to_z (keccak256 pre)) r s = true /\
+      (TP.v_legacy v ->
+         out = TS.spec_signed fm (TN.norm t) (Z.to_N chain) (TP.y_of v) (Z.to_N r) (Z.to_N s) /\
+         TR.RecoverRawTransaction keccak256 (TP3.secp_RecoverDirect o keccak256) out chain
+         = Ok (a, TP2.recovered_tx fm (TN.norm t), pre)).
+Proof. exact sign_recovers_c01_keccak. Qed.
+Print Assumptions C08_sign_recovers_c01_keccak.
+
+(* ... and the typed-data half: with the wallet's typed-data signer INSTANTIATED by property C04's model of
+   ethsigner.SignTypedDataV4 over C05's KeyPair.SignDirect (Wallet/WithC04.v: a document of the wallet model
+   is the *eip712.TypedData the caller passes), whenever a request naming A returns a result with V in
+   {27,28}: the result's hash is the EIP-712 encoding of the document, its 65 signature bytes decode, and
+   C05's RecoverDirect over (hash, signature) returns A for every chain id in [0, 2^53].  Premises left:
+   the group laws, the 32-byte address hash, the reader law, V in {27,28} (the 2^-128 event). *)
+Theorem C08_typed_data_recovers_c04 :
+  forall (o : group_ops) (Hk H : bytes -> bytes) (big_other : bytes -> option Z)
+         (nonce : Z -> bytes -> nat -> Z) (fuel : nat),
+    laws o -> (n o < SM4.two256)%Z -> (forall x, length (Hk x) = 32%nat) ->
+  forall (tx stx : Type) (E : ext N tx stx EI.typed_data EM.EIP712Result) (c : config)
+         (fs : fsys) (h : list (op tx EI.typed_data)) (a : bytes) (td : EI.typed_data)
+         (s' : state N) (res : EM.EIP712Result) (chain : Z),
+    c04_world o Hk H big_other nonce fuel tx stx E -> reader_range4 o tx stx E ->
+    SignTypedDataV4 E c (after E c (init_state fs) h) a td = (s', Ok res) ->
+    (EM.r_V res = 27 \/ EM.r_V res = 28)%Z -> (0 <= chain <= 2 ^ 53)%Z ->
+    exists d sg,
+      (1 <= Z.of_N d < n o)%Z /\ SP4.addr_of o Hk (pub o (Z.of_N d)) = a /\
+      EM.EncodeTypedDataV4 H big_other (Some td) = Ok (EM.r_hash res) /\
+      SM4.DecodeCompactRSV (EM.r_signatureRSV res) = Ok sg /\ SM4.sV sg = EM.r_V res /\
+      SM4.RecoverDirect o Hk sg (EM.r_hash res) chain = Ok a.
+Proof.
+  intros o Hk H big_other nonce fuel L nf HL tx stx E c fs h a td s' res chain.
+  exact (typed_data_recovers_c04 o Hk H big_other nonce fuel L nf HL tx stx E c fs h a td s' res chain).
+Qed.
+Print Assumptions C08_typed_data_recovers_c04.
+
+(* ISSUE 5.  [step] gives a listener event no observation (a failure of notifyNewFiles in the listener is
+   only logged), so C08_never_panics is silent about it.  Here is the statement for that path: under the
+   same two hypotheses the listener's notifyNewFiles returns a state — in EVERY state, for every os.Stat
+   result — and that state is the one [step] continues with. *)
+Theorem C08_listener_event_total :
+  forall (key tx stx doc tsig : Type) (E : ext key tx stx doc tsig) (c : config)
+         (s : state key) (name : bytes) (isdir : bool),
+    regex_law E -> constructed E c ->
+    exists s' : state key,
+      notifyNewFiles _ _ _ _ _ E c s [(name, isdir)] = Ok s' /\
+      fst (step _ _ _ _ _ E c s (OFsEvent _ _ name isdir)) = s'.
+Proof. exact listener_event_total. Qed.
+Print Assumptions C08_listener_event_total.
+
+(* ISSUE 2.  "The account list is exactly the addresses of the matching files" is FALSE of the faithful model
+   once files are removed: the list is cumulative (C08_refresh_exact).  Witness: one key file, scan, the file
+   is removed, scan again — the address is still listed although no file of the current listing names it
+   (a request for it fails: safety is not affected). *)
+Theorem C08_accounts_exact_refuted_after_removal :
+  exists (E : ext bytes unit bytes unit bytes) (c : config) (fs fs' : fsys) (files' : list (bytes * bool)),
+    regex_law E /\ constructed E c /\
+    fs_readdir fs' (c_path c) = Ok files' /\ names_ok files' /\
+    let s := after E c (init_state fs) [ORefresh; OSetFs _ _ fs'; ORefresh] in
+    GetAccounts s = [waddr] /\ spec_accounts (rule_of E c) files' = [] /\
+    snd (GetWalletFile E c s waddr) = Err EWalletFailed.
+Proof. exact accounts_exact_refuted_after_removal. Qed.
+Print Assumptions C08_accounts_exact_refuted_after_removal.
+
+(* ISSUE 4.  "A usable password is present" is Spec.spec_password, which has the implementation's precedence:
+   a READABLE own password file always wins.  Under the broader reading — SOME configured source holds the
+   password that opens the key — liveness is FALSE of the faithful model: a readable per-key password file
+   with the wrong content shadows a default password file with the right one, and the request fails. *)
+Theorem C08_liveness_broad_reading_refuted :
+  exists (E : ext bytes unit bytes unit bytes) (c : config) (fs : fsys) (a fn content dpw k : bytes),
+    regex_law E /\ constructed E c /\
+    let s := after E c (init_state fs) [ORefresh] in
+    GetAccounts s = [a] /\ assoc_get a (st_map s) = Some fn /\
+    fs_readfile fs (path_join E (c_path c) fn) = Ok content /\              (* the key file is there *)
+    fs_readfile fs (c_default_pw_file c) = Ok dpw /\                        (* the default password file is there *)
+    read_wallet E content dpw = Ok k /\ addr_of E k = a /\                  (* and opens A's key *)
+    (exists own, fs_readfile fs (plain_password_file E c a) = Ok own /\
+                 read_wallet E content own = Err 1%nat) /\                  (* the own password file: readable, wrong *)
+    snd (GetWalletFile E c s a) = Err EWalletFailed.                        (* the request fails *)
+Proof. exact liveness_broad_reading_refuted. Qed.
+Print Assumptions C08_liveness_broad_reading_refuted.
+
+(* ------------------------------------------------------------------------------------------------
+   Non-vacuity, second part (ISSUES 5 and 6). *)
+
+(* the model CAN panic: C08_never_panics is not true by construction.  (a) a regular-expression engine
+   answering fewer groups than SubexpNames() (regex_law violated) makes match[1] panic in the scan;
+   (b) a panicking keystore reader (ext_nopanic violated) makes the request panic. *)
+Example C08_panic_possible_without_regex_law :
+  constructed (wE 1 (Err 1%nat)) (wc (lit "x")) /\
+  snd (Refresh (wE 1 (Err 1%nat)) (wc (lit "x")) (init_state (wfs [(wname, false)]))) = Panic.
+Proof. exact panic_without_regex_law. Qed.
+
+Example C08_panic_possible_with_panicking_reader :
+  regex_law (wE 2 Panic) /\ constructed (wE 2 Panic) (wc []) /\
+  snd (run (wE 2 Panic) (wc []) (init_state (wfs [(wname, false)])) [ORefresh; OGetWalletFile _ _ waddr]) =
+  [BRefresh _ _ _ (Ok tt); BWalletFile _ _ _ Panic].
+Proof. exact panic_with_panicking_reader. Qed.
+
+(* A second world: a capture-group regular expression (anything, then .json), JSON metadata found by `auto`, key and
+   password templates, a default password file, trimming that is not the identity (one trailing newline).
+   The metadata document of X is the one-letter text X; its key template yields m/key-X, its password
+   template m/pw-X.  A has its own password file ("pw\n"), B has none and falls back to d/pw ("pw\n"). *)
+Definition nl : bytes := [x0a].
+Definition yE : ext bytes unit bytes unit bytes :=
+  {| re_compile := fun _ => Some 2%nat;
+     re_find := fun _ name => if has_suffix (lit ".json") name
+                              then Some [name; trim_suffix (lit ".json") name] else None;
+     tmpl_parse_ok := fun _ => true;
+     meta_parse := fun _ content => negb (bytes_eqb content []);
+     tmpl_exec := fun _ content t => (t ++ content, true);
+     json_string := fun raw => Some raw;
+     trim_space := trim_suffix nl;
+     path_join := fun a b => a ++ sl ++ b;
+     read_wallet := fun content pw => if bytes_eqb pw (lit "pw") then Ok content else Err 1%nat;
+     addr_of := fun k => k;
+     sign_tx := fun k _ => Ok k;
+     sign_td := fun k _ => Ok k |}.
+
+Definition yc : config :=
+  {| c_path := lit "k"; c_default_pw_file := lit "d/pw"; c_regex := lit "(.*)\.json"; c_primary_ext := lit ".json";
+     c_pw_ext := []; c_pw_path := []; c_pw_trim := true; c_with0x := false;
+     c_meta_format := lit "AUTO"; c_key_prop := lit "m/key-"; c_pw_prop := lit "m/pw-" |}.
+
+Definition hexC : bytes := repeat x33 40.
+Definition xC : bytes := repeat x33 20.
+
+Definition yfiles : list (bytes * bool) :=
+  [ (hexA ++ lit ".json.bak", false); (hexA ++ lit ".json", false); (lit "sub.json", true);
+    (hexB ++ lit ".json", false); (lit "nothex.json", false) ].
+
+Definition yfs : fsys :=
+  {| fs_readdir := fun d => if bytes_eqb d (lit "k") then Ok yfiles else Err 1%nat;
+     fs_readfile := fun p =>
+       if bytes_eqb p (lit "k/" ++ hexA ++ lit ".json") then Ok (lit "A")
+       else if bytes_eqb p (lit "k/" ++ hexB ++ lit ".json") then Ok (lit "B")
+       else if bytes_eqb p (lit "m/key-A") then Ok xA
+       else if bytes_eqb p (lit "m/key-B") then Ok xB
+       else if bytes_eqb p (lit "m/pw-A") then Ok (lit "pw" ++ nl)
+       else if bytes_eqb p (lit "d/pw") then Ok (lit "pw" ++ nl)
+       else Err 1%nat |}.
+
+Lemma yE_regex_law : regex_law yE.
+Proof.
+  intros pat n name g H1 H2. simpl in *. injection H1 as <-.
+  destruct (has_suffix _ name); [injection H2 as <-; reflexivity|discriminate].
+Qed.
+
+Lemma yfiles_names_ok : names_ok yfiles.
+Proof. repeat constructor; simpl; discriminate. Qed.
+
+(* a history with requests, a cached key, evictions and a second scan; no change of the directory *)
+Definition yh : list (op unit unit) :=
+  [OGetAccounts _ _; ORefresh; OSign _ _ (s_0x ++ hexB) tt; OEvict _ _ (addr_string xB); OGetWalletFile _ _ xA;
+   OEvict _ _ (lit "nobody"); OSignTypedData _ _ xA tt; ORefresh; OGetAccounts _ _].
+
+(* regex_law and constructed hold TOGETHER with a regular expression (the constructor reaches re_compile),
+   the capture-group rule is the one in force, and the specification's list is not empty *)
+Example C08_nonvacuous_regex_accounts :
+  regex_law yE /\ constructed yE yc /\ fs_readdir yfs (c_path yc) = Ok yfiles /\ names_ok yfiles /\
+  (exists find, rule_of yE yc = RRegex find) /\
+  spec_accounts (rule_of yE yc) yfiles = [xA; xB] /\
+  static yh = true /\ refreshed yh = true /\
+  GetAccounts (after yE yc (init_state yfs) yh) = [xA; xB].
+Proof.
+  split; [exact yE_regex_law|]. split; [reflexivity|]. split; [reflexivity|].
+  split; [exact yfiles_names_ok|]. split; [eexists; reflexivity|].
+  split; [vm_compute; reflexivity|]. split; [reflexivity|]. split; [reflexivity|].
+  rewrite (C08_accounts_exact_any_history _ _ _ _ _ yE yc yfs yfiles yh yE_regex_law eq_refl eq_refl yfiles_names_ok eq_refl).
+  vm_compute. reflexivity.
+Qed.
+
+(* C08_liveness_metadata and C08_liveness_static_metadata: every premise holds for A (own password file,
+   trimmed) and for B (no password file: default file, trimmed), after the history above *)
+Example C08_nonvacuous_liveness_metadata :
+  (exists s' k', GetWalletFile yE yc (after yE yc (init_state yfs) yh) xA = (s', Ok k') /\ k' = xA /\
+                 (forall d, SignTypedDataV4 yE yc (after yE yc (init_state yfs) yh) xA d = (s', Ok k'))) /\
+  (exists s' k', GetWalletFile yE yc (after yE yc (init_state yfs) yh) xB = (s', Ok k') /\ k' = xB /\
+                 (forall raw t, parse_from yE raw = Some xB ->
+                                Sign yE yc (after yE yc (init_state yfs) yh) raw t = (s', Ok k'))) /\
+  (exists s' k', GetWalletFile yE yc (after yE yc (init_state yfs) [ORefresh]) xB = (s', Ok k') /\ k' = xB).
+Proof.
+  split; [|split].
+  - destruct (C08_liveness_static_metadata _ _ _ _ _ yE yc yfs yfiles yh xA (hexA ++ lit ".json") MJson
+                (lit "A") (lit "m/key-A") xA (lit "pw") xA) as (s' & k' & Hg & Hk & _ & Htd);
+      try exact yE_regex_law; try exact yfiles_names_ok; try (vm_compute; reflexivity); try (vm_compute; discriminate).
+    exists s', k'. split; [exact Hg|]. split; [exact Hk|]. intros d. rewrite Htd. simpl. reflexivity.
+  - destruct (C08_liveness_static_metadata _ _ _ _ _ yE yc yfs yfiles yh xB (hexB ++ lit ".json") MJson
+                (lit "B") (lit "m/key-B") xB (lit "pw") xB) as (s' & k' & Hg & Hk & Htx & _);
+      try exact yE_regex_law; try exact yfiles_names_ok; try (vm_compute; reflexivity); try (vm_compute; discriminate).
+    exists s', k'. split; [exact Hg|]. split; [exact Hk|]. intros raw t Hp. rewrite (Htx raw t Hp). simpl. reflexivity.
+  - apply (C08_liveness_metadata _ _ _ _ _ yE yc yfs [ORefresh] xB (hexB ++ lit ".json") MJson
+             (lit "B") (lit "m/key-B") xB (lit "pw") xB);
+      try (vm_compute; reflexivity); try (vm_compute; discriminate).
+Qed.
+
+(* the default-password and trimming paths of Spec.spec_password, by themselves *)
+Example C08_nonvacuous_spec_password :
+  spec_password (fs_readfile yfs) true (trim_space yE) (lit "m/pw-A") (lit "d/pw") = Some (lit "pw") /\
+  spec_password (fs_readfile yfs) true (trim_space yE) (lit "m/pw-B") (lit "d/pw") = Some (lit "pw") /\
+  spec_password (fs_readfile yfs) false (trim_space yE) (lit "m/pw-B") (lit "d/pw") = Some (lit "pw" ++ nl) /\
+  spec_password (fs_readfile yfs) true (trim_space yE) [] [] = None.
+Proof. repeat split; vm_compute; reflexivity. Qed.
+
+(* C08_listener_event_exact: a listener event for a new matching file C in a reachable state *)
+Example C08_nonvacuous_listener_event :
+  let s := after yE yc (init_state yfs) yh in
+  let s' := fst (step _ _ _ _ _ yE yc s (OFsEvent _ _ (hexC ++ lit ".json") false)) in
+  GetAccounts s' = [xA; xB; xC] /\ assoc_get xC (st_map s') = Some (hexC ++ lit ".json") /\
+  (exists s1, notifyNewFiles _ _ _ _ _ yE yc s [(hexC ++ lit ".json", false)] = Ok s1).
+Proof.
+  intros s s'.
+  destruct (C08_listener_event_exact _ _ _ _ _ yE yc yfs yh (hexC ++ lit ".json") false yE_regex_law eq_refl)
+    as (Hl & Hm & _); [discriminate|].
+  split; [|split].
+  - subst s s'. rewrite Hl. vm_compute. reflexivity.
+  - subst s s'. rewrite Hm. vm_compute. reflexivity.
+  - destruct (C08_listener_event_total _ _ _ _ _ yE yc s (hexC ++ lit ".json") false yE_regex_law eq_refl) as (s1 & H1 & _).
+    exists s1. exact H1.
+Qed.
+
+(* C08_never_panics: its hypotheses hold of this world and history *)
+Example C08_nonvacuous_never_panics :
+  ext_nopanic yE /\ fs_nopanic yfs /\ Forall op_ok yh /\
+  Forall obs_nopanic (snd (run yE yc (init_state yfs) yh)).
+Proof.
+  assert (He : ext_nopanic yE).
+  { split; [|split]; intros; simpl; try discriminate. destruct (bytes_eqb _ _); discriminate. }
+  assert (Hf : fs_nopanic yfs).
+  { split; intros x; simpl; repeat (destruct (bytes_eqb _ _); [discriminate|]); discriminate. }
+  assert (Ho : Forall op_ok yh) by (repeat constructor).
+  split; [exact He|]. split; [exact Hf|]. split; [exact Ho|].
+  exact (C08_never_panics _ _ _ _ _ yE yc yE_regex_law eq_refl He yfs yh Hf Ho).
+Qed.
+
+(* C08_signatures_recover_to_requested / _guarded: in this world a signature IS the key and recovers to it *)
+Example C08_nonvacuous_recover :
+  let s := after yE yc (init_state yfs) yh in
+  (exists s', Sign yE yc s (s_0x ++ hexB) tt = (s', Ok xB)) /\
+  (forall raw t s' out, Sign yE yc s raw t = (s', Ok out) ->
+     exists str a, json_string yE raw = Some str /\ addr_of_text str = Some a /\ Some out = Some a) /\
+  (forall raw t s' out, Sign yE yc s raw t = (s', Ok out) ->
+     exists str a k, json_string yE raw = Some str /\ addr_of_text str = Some a /\
+                     (exists content pw, read_wallet yE content pw = Ok k) /\ addr_of yE k = a /\ sign_tx yE k t = Ok out /\
+                     (True -> Some out = Some a)).
+Proof.
+  intros s. split; [eexists; vm_compute; reflexivity|]. split.
+  - apply (C08_signatures_recover_to_requested _ _ _ _ _ yE yc (fun _ out => Some out) (fun _ out => Some out)).
+    + intros k t out H. simpl in H. injection H as <-. reflexivity.
+    + intros k d out H. simpl in H. injection H as <-. reflexivity.
+  - refine (proj1 (C08_signatures_recover_guarded _ _ _ _ _ yE yc (fun k => exists content pw, read_wallet yE content pw = Ok k) _
+                     (fun _ _ => True) (fun _ _ => True) (fun _ out => Some out) (fun _ out => Some out) _ _ yfs yh)).
+    + intros content pw k H. exists content, pw. exact H.
+    + intros k t out _ _ H. simpl in H. injection H as <-. reflexivity.
+    + intros k d out _ _ H. simpl in H. injection H as <-. reflexivity.
+Qed.
+
+(* C08_sign_recovers_c01: the 13-element toy group of Crypto/Ecdsa.v, key 5, constant nonce, a 32-byte
+   "hash": every hypothesis holds and the request returns a signed transaction *)
+Example C08_nonvacuous_c01 :
+  laws Toy.ops /\ (n Toy.ops < SM.two256)%Z /\ (forall x, length (toyH x) = 32%nat) /\
+  c01_world Toy.ops toyH toy_nonce 1 unit bytes toyE /\ reader_range Toy.ops unit bytes toyE /\
+  (0 <= 2 ^ 53 <= 2 ^ 53)%Z /\ TP4.in_range toy_tx /\
+  exists out, snd (Sign toyE toyc (after toyE toyc (init_state toyfs) [ORefresh])
+                        (s_0x ++ hex_encode toy_addr) (toy_tx, (2 ^ 53)%Z)) = Ok out.
+Proof.
+  destruct toy_world_ok as (H1 & H2 & H3 & H4 & H5 & H6).
+  repeat (split; [assumption || exact toyH_len|]). exact toy_request_signs.
+Qed.
+
+(* C08_typed_data_recovers_c04: the toy group, key 2, a small Mail document: every hypothesis holds and the
+   request returns a result with V in {27,28} *)
+Example C08_nonvacuous_c04 :
+  laws Toy.ops /\ (n Toy.ops < SM4.two256)%Z /\ (forall x, length (toyH4 x) = 32%nat) /\
+  c04_world Toy.ops toyH4 toyH4 (fun _ => None) toy_nonce4 4 unit bytes toyE4 /\
+  reader_range4 Toy.ops unit bytes toyE4 /\
+  exists res, snd (SignTypedDataV4 toyE4 toyc4 (after toyE4 toyc4 (init_state toyfs4) [ORefresh]) toy_addr4 toy_td) = Ok res /\
+              (EM.r_V res = 27 \/ EM.r_V res = 28)%Z.
+Proof.
+  destruct toy_world4_ok as (H1 & H2 & H3 & H4 & H5).
+  repeat (split; [assumption|]). exact toy_request4_signs.
 Qed.
